@@ -348,6 +348,9 @@ def tight_msgs(block):
         if l.startswith("m "):
             cur, dirs = [], []
             out.append(cur)
+        elif cur is not None and l == "dead":
+            out[-1] = None          # the connection was closed by an earlier message: nothing is handled any more
+            cur = None
         elif cur is not None and l.startswith("fs ") and l.split()[1] in TIGHT_OPS and len(l.split()) > 2:
             q = l.split()
             if q[1] == "opendir":
@@ -594,6 +597,8 @@ def compare_case(env, case, il, ml):
             mt, ma = tight_model_msgs(mod)
             for k in range(max(len(im), len(mt))):
                 a = im[k] if k < len(im) else []
+                if a is None:
+                    continue
                 t = mt[k] if k < len(mt) else []
                 f = ma[k] if k < len(ma) else []
                 okt = a == t[:len(a)] and (bool(a) == bool(t) or not a)
